@@ -28,7 +28,7 @@ from typhon.topography import SRTM30
 
 FILE_ROWS, FILE_COLS = 6000, 4800
 MAX_FULL = 2600          # cells up to which the whole array is handed to Coq
-LRU = 6
+LRU = 10
 
 
 def origin_of(name):
@@ -46,9 +46,13 @@ def synth_tile(name):
         _tiles.move_to_end(name)
         return _tiles[name]
     r0, c0 = origin_of(name)
-    rows = (numpy.arange(r0, r0 + FILE_ROWS, dtype=numpy.int64) * 181).reshape(-1, 1)
-    cols = (numpy.arange(c0, c0 + FILE_COLS, dtype=numpy.int64) * 7).reshape(1, -1)
-    a = (1 + (rows + cols) % 32003).astype(numpy.int16).ravel()
+    # 1 + (181 R + 7 C) mod 32003, computed in 16 bits: (181 R mod m) + (7 C mod m) < 65536
+    rows = ((numpy.arange(r0, r0 + FILE_ROWS, dtype=numpy.int64) * 181) % 32003).astype(numpy.uint16).reshape(-1, 1)
+    cols = ((numpy.arange(c0, c0 + FILE_COLS, dtype=numpy.int64) * 7) % 32003).astype(numpy.uint16).reshape(1, -1)
+    s = rows + cols
+    numpy.subtract(s, numpy.uint16(32003), out=s, where=s >= 32003)
+    s += numpy.uint16(1)
+    a = s.view(numpy.int16).ravel()
     a.setflags(write=False)
     _tiles[name] = a
     while len(_tiles) > LRU:
